@@ -455,6 +455,14 @@ def run_cases(cmd, cases, timeout=300, workers=None, env=None, chunk=None, crash
                 for i in idx:
                     results[i] = {"out": got.get(i, []), "crash": None}
                 return
+            if rc == 98 and got:
+                # the harness asked for a fresh process after a case whose output is complete
+                # (vharness.h vh_request_restart)
+                started = [i for i in idx if i in got]
+                for i in started:
+                    results[i] = {"out": got[i], "crash": None}
+                idx = idx[idx.index(started[-1]) + 1:]
+                continue
             # died: find the last case that started
             started = [i for i in idx if i in got]
             bad = started[-1] if started else idx[0]
@@ -1188,6 +1196,7 @@ def explore_schedules(harness_cmd, conf, bound, max_runs=20000, batch=400, env=N
     the space is exhausted (generator's .exhausted = True) or max_runs is reached."""
     class Gen:
         exhausted = False
+        truncated = False
         runs = 0
 
         def __iter__(self):
@@ -1237,10 +1246,15 @@ def explore_schedules(harness_cmd, conf, bound, max_runs=20000, batch=400, env=N
                                 cost += 1
                             if cost > bound:
                                 continue
+                            if self.runs + len(frontier) >= max_runs:
+                                # never run anyway (the frontier is served in order): do not keep
+                                # it — long prefixes x many alternatives is gigabytes otherwise
+                                self.truncated = True
+                                continue
                             newp = tuple(sched[:i]) + (str(alt),)
                             if newp in seen_prefix:
                                 continue
                             seen_prefix.add(newp)
                             frontier.append((list(newp), cost))
-            self.exhausted = not frontier
+            self.exhausted = not frontier and not self.truncated
     return Gen()
